@@ -464,6 +464,15 @@ pub open spec fn seg_index_seq(s: Seq<usize>) -> Seq<usize> {
     Seq::new(total(s) as nat, |m: int| seg_of(s, m, s.len() as int) as usize)
 }
 
+/// the postcondition of `converse` as one predicate
+pub open spec fn is_converse_of(out: IndexedCoproduct<FiniteFunction>, r: IndexedCoproduct<FiniteFunction>) -> bool {
+    &&& out.wf()
+    &&& out.sources.table@.len() == r.values.target && out.values.target == r.sources.table@.len() && out.values.table@.len() == r.values.table@.len()
+    &&& forall|q: int, x: int| #![trigger adj_edge(out, q, x)] #![trigger adj_edge(r, x, q)] 0 <= q < r.values.target && 0 <= x < r.sources.table@.len() ==> (adj_edge(out, q, x) <==> adj_edge(r, x, q))
+    &&& exists|p: Seq<usize>| #[trigger] is_perm(p, r.values.table@.len() as int)
+            && (forall|i: int| 0 <= i < r.values.table@.len() ==> out.values.table@[i] == seg_index_seq(r.sources.table@)[p[i] as int])
+}
+
 /// `converse`: q is listed under x in r  <==>  x is listed under q in the converse
 pub proof fn lemma_converse_edges(r: IndexedCoproduct<FiniteFunction>, out: IndexedCoproduct<FiniteFunction>, p: Seq<usize>)
     requires r.wf(), out.wf(), r.values.table@.len() <= usize::MAX, r.sources.table@.len() <= usize::MAX,
@@ -518,6 +527,9 @@ fn(GR, 'converse', kind='free', status='P', props=['C15', 'C16', 'C17', 'C18'], 
                 && out.values.table@.len() == r.values.table@.len()
                 && (forall|v: int| 0 <= v < r.values.target ==> out.sources.table@[v] == count(r.values.table@, v, r.values.table@.len() as int))'''),
             ('C15.converse-wf', 'out.wf()'),
+            ('C15.converse-perm', '''exists|p: Seq<usize>| #[trigger] is_perm(p, r.values.table@.len() as int)
+                && (forall|i: int| 0 <= i < r.values.table@.len() ==> out.values.table@[i] == seg_index_seq(r.sources.table@)[p[i] as int])'''),
+            ('C15.converse', 'is_converse_of(out, *r)'),
             ('C15.converse-edges', 'forall|q: int, x: int| #![trigger adj_edge(out, q, x)] #![trigger adj_edge(*r, x, q)] 0 <= q < r.values.target && 0 <= x < r.sources.table@.len() ==> (adj_edge(out, q, x) <==> adj_edge(*r, x, q))')],
    ret='out',
    proofs=[('start', 'assert(lawful_clone::<usize>()); lemma_seg_wf_sources(r.sources, r.values.table@.len());'),
